@@ -2,6 +2,7 @@
 # usage: tools/revert_test.sh <fix-commit> <property>...   — undo one fix: commit in the working tree of /repo,
 # run the named checks (they must report a violation), restore the tree.
 c=$1; shift
+trap 'git -C /repo checkout -- .' EXIT INT TERM
 git -C /repo show "$c" | git -C /repo apply -R || exit 2
 for p in "$@"; do
   out=$(/verif/check "$p" 2>&1); rc=$?
